@@ -212,7 +212,7 @@ func runC14(c *mon.Ctx) {
 		for j, p := range parts {
 			chunks[j] = w.Bytes[off : off+p]
 			off += p
-			deltas[j] = int32(r.Intn(100))
+			deltas[j] = liveDelta(r, 100)
 		}
 		c14Check(c, w.Bytes, chunks, deltas, buf)
 		has := false
